@@ -6,12 +6,17 @@
 //        xss_drv rnd  <count> <maxbytes> <shard> <nshards> <rid>...     grammar-guided random strings
 //        xss_drv one  <rid> <hex-bytes>                                 single input (replay / probes)
 //        xss_drv rules <rid>                                            print the Reset line only
+//        xss_drv enc  <pairstep> <ctx> <shard> <nshards>                every charset name the code can be configured with
+//                     x every byte 00..FF embedded in harmless text (ctx 1: also inside <b>..</b>); multi-byte charsets:
+//                     every <pairstep>-th pair (lead >= 0x80, any second byte); expected bits from iconv(3)
 // Rule sets: rid 0..63 generated family; rid 100.. = enumeration rule sets (tags a,b with chosen kinds).
 #include "common/vtrace.h"
 #include <cppcms/xss.h>
 #include <cppcms/json.h>
 #include <booster/regex.h>
 #include <iostream>
+#include <iconv.h>
+#include <errno.h>
 #include <map>
 #include <set>
 
@@ -495,6 +500,142 @@ static std::string unhex(std::string const &h)
 	return s;
 }
 
+// ------------------------------------------------------------------ charsets: names x bytes, oracle = iconv(3)
+struct charset { std::string name; std::string iconv_name; bool multibyte; bool in_table; };
+static void add_cs(std::vector<charset> &v,char const *iconv_name,bool mb,bool table,char const *n1,char const *n2=0,char const *n3=0,char const *n4=0,char const *n5=0,char const *n6=0)
+{
+	char const *names[6]={n1,n2,n3,n4,n5,n6};
+	for(int i=0;i<6;i++) if(names[i]) { charset c; c.name=names[i]; c.iconv_name=iconv_name; c.multibyte=mb; c.in_table=table; v.push_back(c); }
+}
+static std::vector<charset> charsets()
+{
+	std::vector<charset> v;
+	// every key of the predefined validator table of src/encoding.cpp (names are compared after dropping
+	// everything but letters and digits and folding case), in several spellings
+	int iso[]={1,2,3,4,5,6,7,8,9,10,11,13,14,15,16};
+	for(unsigned i=0;i<sizeof(iso)/sizeof(iso[0]);i++) {
+		char a[32],b[32],c[32],d[32],e[32];
+		snprintf(a,32,"ISO-8859-%d",iso[i]); snprintf(b,32,"iso-8859-%d",iso[i]); snprintf(c,32,"iso8859-%d",iso[i]);
+		snprintf(d,32,"ISO8859%d",iso[i]); snprintf(e,32,"Iso_8859_%d",iso[i]);
+		add_cs(v,a,false,true,a,b,c,d,e);
+	}
+	add_cs(v,"ISO-8859-1",false,true,"latin1","Latin1","LATIN-1","latin_1");
+	int win[]={1250,1251,1252,1253,1255,1256,1257,1258};
+	for(unsigned i=0;i<sizeof(win)/sizeof(win[0]);i++) {
+		char ic[32],a[32],b[32],c[32],d[32],e[32],f[32];
+		snprintf(ic,32,"CP%d",win[i]);
+		snprintf(a,32,"windows-%d",win[i]); snprintf(b,32,"Windows-%d",win[i]); snprintf(c,32,"WINDOWS%d",win[i]);
+		snprintf(d,32,"cp%d",win[i]); snprintf(e,32,"CP%d",win[i]); snprintf(f,32,"cp-%d",win[i]);
+		add_cs(v,ic,false,true,a,b,c,d,e,f);
+	}
+	add_cs(v,"KOI8-R",false,true,"KOI8-R","koi8-r","koi8r","Koi8_R");
+	add_cs(v,"KOI8-U",false,true,"KOI8-U","koi8-u","koi8u");
+	add_cs(v,"UTF-8",true,true,"UTF-8","utf-8","utf8","Utf_8","UTF8");
+	add_cs(v,"US-ASCII",false,true,"US-ASCII","us-ascii","ascii","ASCII","usascii");
+	// charsets that are NOT in the table: validated / filtered through a conversion round trip
+	add_cs(v,"CP1254",false,false,"windows-1254","Windows-1254","cp1254","CP1254","WINDOWS-1254");
+	add_cs(v,"CP874",false,false,"windows-874","cp874","CP874");
+	add_cs(v,"CP866",false,false,"cp866","CP866","IBM866");
+	add_cs(v,"CP437",false,false,"cp437","IBM437");
+	add_cs(v,"CP850",false,false,"cp850","IBM850");
+	add_cs(v,"KOI8-T",false,false,"KOI8-T");
+	add_cs(v,"MACINTOSH",false,false,"MACINTOSH","macintosh");
+	add_cs(v,"TIS-620",false,false,"TIS-620","tis620");
+	add_cs(v,"SHIFT_JIS",true,false,"Shift_JIS","SHIFT_JIS","SJIS","shift-jis");
+	add_cs(v,"CP932",true,false,"windows-932","cp932");
+	add_cs(v,"EUC-JP",true,false,"EUC-JP","euc-jp","eucjp");
+	add_cs(v,"GBK",true,false,"GBK","gbk");
+	add_cs(v,"GB2312",true,false,"GB2312");
+	add_cs(v,"EUC-KR",true,false,"EUC-KR","euc-kr");
+	add_cs(v,"BIG5",true,false,"BIG5","Big5","big5");
+	return v;
+}
+
+// independent oracle: does the text convert strictly from the charset (iconv(3))?  code points on success
+static bool iconv_ok(std::string const &cs,std::string const &in,std::vector<unsigned> *cps)
+{
+	iconv_t d=iconv_open("UTF-32LE",cs.c_str());
+	if(d==(iconv_t)(-1)) { std::cerr<<"iconv does not know "<<cs<<std::endl; exit(4); }
+	std::vector<char> out(in.size()*8+16);
+	char *ip=const_cast<char *>(in.c_str()); size_t il=in.size();
+	char *op=&out[0]; size_t ol=out.size();
+	bool ok=true;
+	if(iconv(d,&ip,&il,&op,&ol)==(size_t)(-1)) ok=false;
+	else if(iconv(d,0,0,&op,&ol)==(size_t)(-1)) ok=false;
+	iconv_close(d);
+	if(ok && cps) {
+		size_t n=(op-&out[0])/4;
+		for(size_t i=0;i<n;i++) { unsigned char *q=(unsigned char *)&out[i*4]; cps->push_back(q[0]|(q[1]<<8)|(q[2]<<16)|((unsigned)q[3]<<24)); }
+	}
+	return ok;
+}
+
+static void emit_enc(charset const &cs,xss::rules const &r,char repl,std::string const &in)
+{
+	char const *b=in.c_str(),*e=b+in.size();
+	vt::J j; j.s("e","E").bytes("in",in);
+	std::vector<unsigned> cps;
+	bool exp=iconv_ok(cs.iconv_name,in,&cps);
+	j.b("exp",exp).a("cps",cps);
+	try {
+		bool vi=xss::validate(b,e,r);
+		std::string tmp;
+		bool vfr=xss::validate_and_filter_if_invalid(b,e,r,tmp,xss::remove_invalid,repl);
+		tmp.clear();
+		bool vfe=xss::validate_and_filter_if_invalid(b,e,r,tmp,xss::escape_invalid,repl);
+		std::string orr=xss::filter(b,e,r,xss::remove_invalid,repl);
+		std::string oe=xss::filter(in,r,xss::escape_invalid,repl);
+		bool vor=xss::validate(orr.c_str(),orr.c_str()+orr.size(),r);
+		bool voe=xss::validate(oe.c_str(),oe.c_str()+oe.size(),r);
+		bool sr=xss::filter(orr,r,xss::remove_invalid,repl)==orr;
+		bool se=xss::filter(oe,r,xss::escape_invalid,repl)==oe;
+		j.b("vi",vi).b("vfr",vfr).b("vfe",vfe).b("vor",vor).b("voe",voe).b("sr",sr).b("se",se);
+		j.b("xr",iconv_ok(cs.iconv_name,orr,0)).b("xe",iconv_ok(cs.iconv_name,oe,0));
+		if(orr!=in) j.bytes("or",orr);
+		if(oe!=in) j.bytes("oe",oe);
+	}
+	catch(std::exception const &ex) {
+		j.b("vi",false).b("vfr",false).b("vfe",false).b("vor",false).b("voe",false).b("sr",false).b("se",false).b("xr",false).b("xe",false).s("exc",ex.what());
+	}
+	j.raw("rx","[]");
+	tr.line(j.str());
+}
+
+static void run_enc(int pairstep,int ctx,int shard,int nshards)
+{
+	std::vector<charset> cs=charsets();
+	for(size_t k=0;k<cs.size();k++) {
+		if((int)(k%nshards)!=shard) continue;
+		charset const &c=cs[k];
+		xss::rules r;
+		bool xhtml=k%2;
+		r.html(xhtml ? xss::rules::xhtml_input : xss::rules::html_input);
+		r.encoding(c.name);
+		r.add_tag("b",xss::rules::opening_and_closing);
+		char repl=(k%3==0)?'?':0;
+		std::string tags="[{\"n\":[98],\"k\":1,\"attrs\":[]}]";
+		std::string ents="[[108,116],[103,116],[97,109,112],[113,117,111,116]]";
+		tr.line(vt::J().s("e","Reset").i("rid",1000+(int)k).b("xhtml",xhtml).b("comments",false).b("numeric",false).s("enc","ext")
+			.i("repl",(unsigned char)repl).b("json",false).s("encname",c.name).s("iconv",c.iconv_name).b("table",c.in_table)
+			.raw("ents",ents).raw("tags",tags).str());
+		for(int x=0;x<256;x++) {
+			emit_enc(c,r,repl,std::string("ab ")+char(x)+"cd");
+			if(ctx) emit_enc(c,r,repl,std::string("<b>x")+char(x)+"y</b>");
+			if(ctx) emit_enc(c,r,repl,std::string(1,char(x)));
+		}
+		if(c.multibyte) {
+			long n=0;
+			for(int x=0x80;x<256;x++) for(int y=0;y<256;y++) {
+				if((n++ + (long)seed0)%pairstep!=0) continue;
+				emit_enc(c,r,repl,std::string("a ")+char(x)+char(y)+" d");
+			}
+			// three-byte forms matter for UTF-8 / EUC-JP: lead, second, fixed third
+			for(int x=0xE0;x<0xF5 && pairstep<=64;x++) for(int y=0x80;y<0xC0;y+=(pairstep>1?7:1))
+				emit_enc(c,r,repl,std::string("a ")+char(x)+char(y)+"\x80 d");
+		}
+	}
+}
+
 int main(int argc,char **argv)
 {
 	seed0=vt::envl("VERIF_SEED",1);
@@ -505,6 +646,11 @@ int main(int argc,char **argv)
 	if(mode=="one") {
 		ruleset rs=make_rules(atoi(argv[2]));
 		emit(rs,argc>3?unhex(argv[3]):std::string());
+		tr.close(); return 0;
+	}
+	if(mode=="enc") {
+		if(argc<6) { std::cerr<<"enc <pairstep> <ctx> <shard> <nshards>"<<std::endl; return 2; }
+		run_enc(atoi(argv[2]),atoi(argv[3]),atoi(argv[4]),atoi(argv[5]));
 		tr.close(); return 0;
 	}
 	if(argc<7) { std::cerr<<"too few arguments"<<std::endl; return 2; }
